@@ -35,9 +35,9 @@ theorem mkcalendar_needs_write_letter (cfg : Cfg) (rights : Rights) (user : Stri
     (mkcalendarU cfg rights user s p props bad).2 = some u → has (rights user p) "w" = true :=
   mkcalendar_needs_w cfg rights user s p props bad u
 
-theorem delete_needs_write (cfg : Cfg) (rights : Rights) (user : String) (s : Store) (p im) (u : Update) :
-    (deleteU cfg rights user s p im).2 = some u → check rights user p 'w' (subjectOf (resolve s p)) = true :=
-  delete_needs_w cfg rights user s p im u
+theorem delete_needs_write (cfg : Cfg) (rights : Rights) (user : String) (s : Store) (p im imc) (u : Update) :
+    (deleteU cfg rights user s p im imc).2 = some u → check rights user p 'w' (subjectOf (resolve s p)) = true :=
+  delete_needs_w cfg rights user s p im imc u
 
 theorem proppatch_needs_write (cfg : Cfg) (rights : Rights) (user : String) (s : Store) (p set rm st bad) (u : Update) :
     (proppatchU cfg rights user s p set rm st bad).2 = some u → check rights user p 'w' (subjectOf (resolve s p)) = true :=
